@@ -73,7 +73,7 @@ class Soap12(Soap11):
         return value, faultstrings
 
     def generate_faultcode(self, element):
-        nsmap = element.nsmap
+        nsmap = {'soap': self.ns_soap_env}
         faultcode = []
         faultcode.append(element.find('soap:Code/soap:Value', namespaces=nsmap).text)
         subcode = element.find('soap:Code/soap:Subcode', namespaces=nsmap)
@@ -142,7 +142,7 @@ class Soap12(Soap11):
         return self._fault_to_parent_impl(ctx, cls, inst, parent, ns, subelts)
 
     def fault_from_element(self, ctx, cls, element):
-        nsmap = element.nsmap
+        nsmap = {'soap': self.ns_soap_env}
 
         code = self.generate_faultcode(element)
         reason = element.find("soap:Reason/soap:Text", namespaces=nsmap).text.strip()
@@ -150,9 +150,9 @@ class Soap12(Soap11):
         node = element.find("soap:Node", namespaces=nsmap)
         detail = element.find("soap:Detail", namespaces=nsmap)
         faultactor = ''
-        if role is not None:
+        if role is not None and role.text is not None:
             faultactor += role.text.strip()
-        if node is not None:
+        if node is not None and node.text is not None:
             faultactor += node.text.strip()
         return cls(faultcode=code, faultstring=reason,
                    faultactor=faultactor, detail=detail)
